@@ -217,6 +217,7 @@ func runC04(c *ctx) {
 			{"articles": {"body", "author"}},
 			{"comments": {"ip"}, "people": {}},
 			{"articles": {"tags"}, "people": {"first", "last"}, "comments": {"author", "body"}},
+			{"articles": {"author", "body", "title", "ip"}, "comments": {"author", "body", "title", "ip"}, "people": {"boss"}},
 		} {
 			for _, order := range [][]resSpec{{a1, c1}, {c1, a1}, {a1, c1, a1}} {
 				for _, rd := range []map[string][]string{allRD, {"articles": {"tags"}, "comments": {"author"}}, {"articles": {"author"}, "comments": {}}} {
